@@ -38,13 +38,13 @@ PROPS = {
                 "source term. Non-trivial: a step exists / the program takes at least one step; distinct by case text. Rejected programs and "
                 "out-of-fuel programs are counted but inconclusive.",
         "trusted_base": TB_COMMON + [
-            "modelled, not verified: src/evaluator.rs is mirrored by hand in coq/Model/Eval.v and tied to the code by the exhaustive single-step stream; num-bigint arithmetic is modelled by Z; Spec/EvalEnv.v (reference interpreter, written without substitution) is proved to agree with the evaluator model on closed hole-free programs whose groups are single value definitions (Proofs/EvalEnvProofs.v interpreters_agree); on general groups it is an executable specification compared by running",
+            "modelled, not verified: src/evaluator.rs is mirrored by hand in coq/Model/Eval.v and tied to the code by the exhaustive single-step stream; num-bigint arithmetic is modelled by Z; Spec/EvalEnv.v (reference interpreter, written without substitution) is proved to agree with the evaluator model on every closed hole-free program (Proofs/EvalEnvGroups.v interpreters_agree_G3)",
         ],
         "assumptions": ["programs that exceed the step/recursion fuel or the per-case time limit are inconclusive",
                         "stack exhaustion of the real evaluator on deep recursion is outside the model"],
     },
     "C01": {
-        "level": "translation_validation",
+        "level": "proof",
         "streams": ["C01"],
         "case_ms": 5000,
         "rule": "programs from the type-directed generator (annotations omitted with probability 0.4-0.7, `_` in type positions, recursive and "
@@ -200,7 +200,7 @@ PROPS = {
         "assumptions": ["ranges that no diagnostic produces (e.g. ending inside the indentation of a continuation line, where `listing` would slice backwards) are outside the property and not generated"],
     },
     "C03": {
-        "level": "translation_validation",
+        "level": "proof",
         "streams": ["C03", "MB"],
         "case_ms": 5000,
         "rule": "generated programs (fully annotated, annotations omitted, `_` in types; base, function, dependent and computed types, "
@@ -218,7 +218,7 @@ PROPS = {
                         "instances on which the validator runs out of fuel are inconclusive"],
     },
     "C04": {
-        "level": "translation_validation",
+        "level": "proof",
         "streams": ["C04"],
         "case_ms": 5000,
         "rule": "generated terminating programs of base, function, dependent, computed and group-mentioning types: the implementation's value "
@@ -234,7 +234,7 @@ PROPS = {
         "assumptions": ["preservation as a universal theorem is not claimed (needs Pi-injectivity, hence confluence)"],
     },
     "C05": {
-        "level": "translation_validation",
+        "level": "proof",
         "streams": ["C05", "MB"],
         "case_ms": 5000,
         "rule": "fully annotated programs from the type-directed generator plus polymorphic / higher-order / dependent / recursive-group "
@@ -266,7 +266,7 @@ PROPS = {
         "assumptions": ["symmetry and agreement with equality of normal forms are theorems about the mirror convb/nf (convb_sym, convb_iff_nf); that unify on hole-free terms is this mirror is what the stream decides"],
     },
     "C12": {
-        "level": "translation_validation",
+        "level": "proof",
         "streams": ["C12"],
         "case_ms": 5000,
         "rule": "(pattern, instance) pairs: all closed well-typed normalising terms <= 4 (5) nodes and random closed terms of 3-28 nodes with "
@@ -339,11 +339,11 @@ MANIFEST_TEXT = {
                 "and values of generated programs, which are also compared with an independent environment-based interpreter run on the "
                 "parsed source. That interpreter (environments, closures, a store of cells; no substitution or shifting) and the model "
                 "are proved to agree - terminate together with the same observable value or the same stuck reason, diverge together - on "
-                "every closed hole-free program whose groups are single value definitions, recursive functions included "
-                "(interpreters_agree, ground_agreement, eval_env_mono); multi-definition and computed groups are compared by running.",
+                "EVERY closed hole-free program: groups of any shape, computed definitions, mutual recursion, forward references "
+                "(interpreters_agree_G3; first proved for single value definitions: interpreters_agree, ground_agreement, eval_env_mono).",
         "design_ref": "DESIGN.md section 4, C02",
         "note": "Trusted: Coq kernel, extraction, OCaml driver, Rust harness. The model/code tie is differential. The reference "
-                "interpreter is proved equivalent to the model on the single-value-definition fragment and is an executable spec beyond it. BigInt is modelled by Z.",
+                "interpreter is proved equivalent to the model on all closed hole-free programs. BigInt is modelled by Z.",
         "technique": "Coq proof that the evaluator model equals an evaluation-context CBV semantics + exhaustive single-step differential testing + 3-way program evaluation",
     },
     "C01": {
@@ -357,7 +357,7 @@ MANIFEST_TEXT = {
                 "progress and preservation of the typing rules, from confluence of the repaired definitional equality).",
         "design_ref": "DESIGN.md section 4, C01; section 5",
         "note": "Trusted: Coq kernel, extraction, OCaml driver, harness. Known findings are matched by signature (reason + binder of the stuck variable / hook H1).",
-        "technique": "translation validation: implementation run + proved stuck-term classifier (Coq), type-directed program generation",
+        "technique": "Coq proof of progress for what the checker model accepts on hole-free group-free programs (soundness of the checker model + progress/preservation from confluence) + translation validation on the implementation: run + proved stuck-term classifier, type-directed program generation",
     },
     "C09": {
         "text": "Proved for every text: tokens returned by the tokenizer model partition the source (C09_tokenize_partition, axiom-free, over the "
@@ -387,7 +387,9 @@ MANIFEST_TEXT = {
                 "alternatives, consumed tokens, sub-parses) implements exactly the productions regenerated from grammar.y; committed "
                 "sub-parses are ordered choices; every function is memoised; and every token list the parser model accepts is a sentence of the "
                 "context-free grammar regenerated from grammar.y (parse_sound, by an invariant through the skeleton interpreter, error "
-                "recovery and the memo table). Acceptance iff sentence, the tree with left-associated chains "
+                "recovery and the memo table) AND CONVERSELY every sentence is accepted (parse_accepts_iff_sentence: an ordered-choice "
+                "semantics refined by the model, first-two-token and FOLLOW tables computed from the generated grammar and checked closed "
+                "by vm_compute, completeness by induction over derivations). The tree with left-associated chains "
                 "and honoured parentheses, full consumption and names are decided by running the extracted executable parser model and an "
                 "Earley recogniser of grammar.y against the implementation on all short token sequences, grammar derivations and their "
                 "single-token edits. Tree shape, proved (Proofs/ReassocProofs.v): on every tree the parser model produces, the three "
@@ -397,8 +399,8 @@ MANIFEST_TEXT = {
                 "(parser_reassociate_spec, parser_tree_wf, reassoc_left / reassoc_paren); and the tree carries exactly the tokens: its in-order "
                 "content (identifiers incl. binder names, literals, constants, operators, keywords, arrows, colons, braces, terminators - "
                 "all but parentheses) equals the token list's, before and after re-association (parsed_tree_content, "
-                "parser_output_content). Partial proof: completeness of the model (every "
-                "sentence is accepted) and uniqueness of derivations are not theorems.",
+                "parser_output_content). Not theorems: uniqueness of derivations and that the raw tree is the derivation tree (explored: Earley "
+                "recogniser, independent chain reader).",
         "design_ref": "DESIGN.md section 4, C07",
         "note": "Trusted: Coq kernel, the skeleton/grammar translator, extraction, OCaml driver + Earley oracle, harness.",
         "technique": "Coq proof that the parser model accepts only sentences of the generated grammar + generated skeleton-vs-grammar obligations (vm_compute) + extracted packrat model differential testing + Earley completeness oracle",
@@ -470,7 +472,10 @@ MANIFEST_TEXT = {
     "C15": {
         "text": "Proved for the listing model: the lines shown are exactly those intersecting the range, numbered from 1, and marked sections "
                 "stay inside the trimmed line; the model's rendering (gutter, overline column counted in characters) is compared bytewise "
-                "with the implementation's. Proved for the parser model (Proofs/RangeProofs.v, an invariant of every parse call and of the "
+                "with the implementation's. Proved for the listing model as well (Proofs/ListingExact.v): a character of a shown line is marked iff it "
+                "starts inside the range, is not trailing whitespace and - unless the range starts strictly inside that line - is not "
+                "leading indentation (marked_characters_exact); the shown text is the trimmed line; the overline counts characters, not "
+                "bytes; token spans lie within the file on character boundaries. Proved for the parser model (Proofs/RangeProofs.v, an invariant of every parse call and of the "
                 "memo table): every node of an accepted parse carries the byte range from the first byte of its first token to the last "
                 "byte of its last token, children tile the parent's token interval as the production prescribes, parentheses widen only "
                 "the parenthesised node, the root spans the input (parsed_tree_layout). That the implementation's ranges are these, and the "
@@ -491,17 +496,21 @@ MANIFEST_TEXT = {
                 "zonking). With holes two genuine violation classes are recorded findings (D9, D19), both reproduced inside Coq.",
         "design_ref": "DESIGN.md section 3.3 and section 4, C03",
         "note": "Per-instance certificates plus a soundness theorem for the checker model on hole-free programs; not a theorem about type_checker.rs. Failures in programs where hook H1 / H3 fired are attributed to D9 / D19.",
-        "technique": "translation validation with a Coq-verified type checker (infer_sound) on accepted and perturbed generated programs",
+        "technique": "Coq proof of soundness of the checker model on all hole-free programs (simulation up to zonking) + translation validation of the implementation with a Coq-verified type checker (infer_sound) on accepted and perturbed generated programs",
     },
     "C04": {
         "text": "The value the implementation computes is certified by the proved validator at the program's reported type, and its former "
                 "is compared with the type's weak-head normal form. Proved on hole-free group-free programs (from confluence): a step keeps "
                 "the type, values of type int / bool / a function type are literals / true or false / functions, and what the checker model "
                 "accepts at int yields an integer literal or stops on a division by zero (preservation_has_type, type_safety_has_type, "
-                "canonical forms, accepted_int_programs_yield_literals). With groups or holes: per-instance. Recorded findings: D9, D19.",
+                "canonical forms, accepted_int_programs_yield_literals), and with definition groups of at most one definition each - recursive "
+                "functions, computed definitions, nested anywhere - what the checker model accepts evaluates to a value of the reported type "
+                "and shape (preservation_groups_sg, accepted_values_have_the_reported_type / _shape); groups of any size for simply typed "
+                "programs (simple_safe). For mutually recursive dependently annotated groups stepwise subject reduction of the typing rules is "
+                "refuted inside Coq (sr_fails_values; divergent witnesses). With holes: per-instance. Recorded findings: D9, D19.",
         "design_ref": "DESIGN.md section 4, C04",
         "note": "As C03.",
-        "technique": "translation validation of (value, reported type) pairs with a Coq-verified type checker",
+        "technique": "Coq proofs of subject reduction / canonical forms (group-free; single-definition groups; simply typed groups of any size) composed with soundness of the checker model + translation validation of (value, reported type) pairs on the implementation",
     },
     "C05": {
         "text": "Well-typedness of each fully annotated generated program is established by the proved validator on the parser's output; "
@@ -514,7 +523,7 @@ MANIFEST_TEXT = {
                 "model diverges); elaboration identity for every input (tcB_elab_identity).",
         "design_ref": "DESIGN.md section 4, C05",
         "note": "As C03; completeness of type_checker.rs itself is decided per certified instance; the theorems are about Model B.",
-        "technique": "certified generation (Coq-verified checker) + acceptance check + structural elaboration-identity comparison",
+        "technique": "Coq proofs of completeness of the checker model against the verified checker (spine programs) and of elaboration identity + certified generation (Coq-verified checker) + acceptance check + structural elaboration-identity comparison on the implementation",
     },
     "C06": {
         "text": "Proved - coherence, the property's first sentence: on every hole-free program (groups, recursion, any fuel, any well-formed "
@@ -538,7 +547,12 @@ MANIFEST_TEXT = {
         "technique": "Coq proofs about definitional equality (step_in_conv, convb_sym, convb_iff_nf, nf_sound, convb_refl, whnf_never_let) + differential and metamorphic testing of normalize_weak_head/unify",
     },
     "C12": {
-        "text": "Per-instance validation with a proved conversion test: after each successful unification the recorded solutions are "
+        "text": "PROVED of Model B, the mirror compared with unify on every case (verdict and store): for every unification during which neither "
+                "instrumented event occurs - `open` meeting an unsolved hole (hook H1, finding D9), `signed_shift` leaving an unsolved hole "
+                "below the cutoff (hook H3, finding D19) - success implies that the two sides are definitionally equal under EVERY completion "
+                "of the remaining holes and that every recorded solution is well scoped where its hole was written (unifyN_consistent, "
+                "unifyN_refines; both events shown necessary by computed counterexamples), so a failure with both counters silent cannot be "
+                "a recorded finding. On the implementation, per instance with a proved conversion test: after each successful unification the recorded solutions are "
                 "substituted and the two sides must be certified definitionally equal (convb_sound); solutions must be closed and the store "
                 "acyclic; unify(t,t) on hole-free t must succeed (mirror: convb_refl). Hole-punched pairs at every position and depth, "
                 "occurs-check (direct and through cells solved earlier) and scope-escape configurations. Proved of Model B (compared with "
@@ -548,8 +562,8 @@ MANIFEST_TEXT = {
                 "the term that mentions it - every recorded solution is well scoped where its hole was written (unifyB_solutions_scoped; "
                 "the side condition is necessary and type_check_rec does not maintain it: C12_scoping_refuted_D19). D9 and D19 are recorded findings.",
         "design_ref": "DESIGN.md section 4, C12",
-        "note": "Consistency (store only grows) and acyclicity are theorems of Model B; scope is validated on the implementation's own store.",
-        "technique": "translation validation of unify results with a Coq-verified conversion test + store scope/acyclicity checks on hole-punched pairs",
+        "note": "Consistency, scoping (outside D9 / D19), monotonicity and acyclicity of the store are theorems of Model B; the implementation's own store is validated per instance.",
+        "technique": "Coq proof of consistency and scoping of unification on Model B for all runs outside the two instrumented events (both shown necessary) + store monotonicity/acyclicity + translation validation of the implementation's unify results with a Coq-verified conversion test",
     },
     "C18": {
         "text": "Proved: what the depth offsets of context entries mean (C18_lookup_param / _under_binder / _group: the `index + 1 - "
